@@ -330,6 +330,35 @@ func c14(x *mon.Ctx) {
 			}
 		}
 	}
+	// a wrongly sized list entry behind an empty ("do not care") one, at every pair of positions
+	{
+		quotes, q := mkQuotes()
+		for ep := 0; ep < 4; ep++ {
+			for bp := 0; bp < 4; bp++ {
+				if ep == bp {
+					continue
+				}
+				for _, how := range []string{"short", "long"} {
+					l := [][]byte{append([]byte{}, q.Rtmrs[0]...), append([]byte{}, q.Rtmrs[1]...), append([]byte{}, q.Rtmrs[2]...), append([]byte{}, q.Rtmrs[3]...)}
+					l[ep] = []byte{}
+					if how == "short" {
+						l[bp] = l[bp][:47]
+					} else {
+						l[bp] = append(l[bp], 0)
+					}
+					add("rtmrs", fmt.Sprintf("empty@%d-%s@%d", ep, how, bp), ref.Policy{Rtmrs: l}, quotes, nil)
+					a := [][]byte{append([]byte{}, q.MrTd...), append([]byte{}, q.MrTd...), append([]byte{}, q.MrTd...), append([]byte{}, q.MrTd...)}
+					a[ep] = []byte{}
+					if how == "short" {
+						a[bp] = a[bp][:47]
+					} else {
+						a[bp] = append(a[bp], 0)
+					}
+					add("any-mr-td", fmt.Sprintf("empty@%d-%s@%d", ep, how, bp), ref.Policy{AnyMrTd: a}, quotes, nil)
+				}
+			}
+		}
+	}
 	// random combinations
 	nr := x.Pick(2000, 150000)
 	for i := 0; i < nr; i++ {
